@@ -81,6 +81,29 @@ func evalCase(c *Case, drv *lib.Driver, guard bool) *caseResult {
 		cr.findings = append(cr.findings, finding{sig: "l1head-written-despite-chain-id-mismatch",
 			what: "stored head changed although the L1 node is on another network"})
 	}
+	// one-shot catch-up that reports success must have recorded the highest finalised log of the
+	// provider's history (whether or not the code polled the finalised height a second time)
+	if c.Mode == "oneshot" && cr.obs.RunErr == "" && !c.ChainIDMismatch && !c.LatestFail && !c.Fin1Fail &&
+		cr.an.catchup != "failed" && histWellBehaved(c) && c.Fin1 <= c.Fin2 {
+		lim := c.Fin2
+		if c.Latest < lim {
+			lim = c.Latest
+		}
+		var top *Log
+		for i := range c.Hist {
+			l := &c.Hist[i]
+			if l.L1 <= lim && (top == nil || l.L1 > top.L1 || (l.L1 == top.L1 && l.L2 > top.L2)) {
+				top = l
+			}
+		}
+		fh := cr.obs.FinalHead
+		if top != nil && (fh == nil || (HeadJ{L2: top.L2, Hash: top.Hash, Root: top.Root}) != *fh) &&
+			(c.Stored == nil || c.StoredL1 < top.L1) {
+			cr.findings = append(cr.findings, finding{sig: "l1head-catchup-misses-highest-finalised-log",
+				what: fmt.Sprintf("CatchUpL1Head returned nil (latest %d, finalised %d then %d, chunk %d) with stored head %s; the provider's history has the state update of Starknet block %d in L1 block %d",
+					c.Latest, c.Fin1, c.Fin2, c.Chunk, fh.String(), top.L2, top.L1)})
+		}
+	}
 	fs, wbUntil, stats := oracle(c, cr.an.sems)
 	cr.findings = append(cr.findings, fs...)
 	cr.stats, cr.wbUntil = stats, wbUntil
@@ -188,8 +211,8 @@ func main() {
 	} else {
 		cases = append(cases, leadL11())
 		cases = append(cases, enumCases(f.Scale(3, 4))...)
-		cases = append(cases, catchupGrid(r.Fork(1), f.Scale(400, 6000))...)
-		nChain, nFree := f.Scale(1200, 30000), f.Scale(500, 10000)
+		cases = append(cases, catchupGrid(r.Fork(1), f.Scale(400, 20000))...)
+		nChain, nFree := f.Scale(1200, 120000), f.Scale(500, 30000)
 		rc, rf := r.Fork(2), r.Fork(3)
 		for i := 0; i < nChain; i++ {
 			cases = append(cases, genChainCase(rc.Fork(uint64(i)), fmt.Sprintf("chain-%d", i)))
